@@ -117,9 +117,10 @@ def model_lines(c, E):
     L = ["option timestep=0.125 gravity=0,0,0 cone=1",
          "compiler degree=0 fusestatic=0 boundmass=0 boundinertia=0 autolimits=1"]
     for k, b in enumerate(c["B"], start=1):
-        L.append("body name=b%d parent=%s pos=%s quat=%s mass=%s ipos=%s inertia=1,1,1 explicitinertial=1" % (
+        L.append("body name=b%d parent=%s pos=%s quat=%s mass=%s ipos=%s iquat=%s inertia=4,3,2 "
+                 "explicitinertial=1" % (
             k, "world" if b["par"] == 0 else "b%d" % b["par"], csv(b["pos"]), csv(quat_of(b["R"])), num(b["mass"]),
-            csv(b["ipos"])))
+            csv(b["ipos"]), csv(quat_of(b["iR"]))))
         if b["jt"] != "none":
             hinge = b["jt"] == "hinge"
             L.append("joint body=b%d name=j%d type=%d axis=%s pos=%s ref=%s" % (
@@ -353,10 +354,21 @@ def _written(c, stage_idx):
     return [x for x in c["obs"][stage_idx] if x[1] != 0]
 
 
+def _tilted(c, b):
+    return c["B"][b - 1]["iR"] != ((1, 0, 0), (0, 1, 0), (0, 0, 1))
+
+
 NEED = {
     "a hinge away from its reference": lambda c: any(b["jt"] == "hinge" and (c["st"]["q"][k] - b["ref"]) % 4 != 0
                                                      for k, b in enumerate(c["B"])),
     "a frame sensor with a reference object": lambda c: any(s["ref"][0] != "none" for s in c["S"]),
+    "a frame axis sensor on a `body` object whose inertial frame is rotated": lambda c: not c["st"]["dis"] and any(
+        s["kind"] in ("framexaxis", "frameyaxis", "framezaxis") and s["obj"][0] == "body" and _tilted(c, s["obj"][1])
+        for s in c["S"]),
+    "a relative frame position in a `body` reference whose inertial frame is rotated": lambda c: not c["st"]["dis"] and any(
+        s["kind"] == "framepos" and s["ref"][0] == "body" and _tilted(c, s["ref"][1]) for s in c["S"]),
+    "a relative frame velocity in a `body` reference whose inertial frame is rotated": lambda c: not c["st"]["dis"] and any(
+        s["kind"] in ("framelinvel", "frameangvel") and s["ref"][0] == "body" and _tilted(c, s["ref"][1]) for s in c["S"]),
     "a relative linear velocity seen from a rotating reference": lambda c: any(
         s["kind"] == "framelinvel" and s["ref"][0] != "none" and s["ref"][1] != s["obj"][1] for s in c["S"]) and any(
         b["jt"] == "hinge" and c["st"]["v"][k] != 0 for k, b in enumerate(c["B"])),
